@@ -51,7 +51,22 @@ def main():
             print("%-4s quiet=%d inconclusive=%s FALSE-ALARMS=%s" % (name, summary[name]["quiet"], inc, viol or "none"))
             alarms += len(viol)
             sys.stdout.flush()
-    json.dump(summary, open(os.path.join(VERIF, "equiv", "last_run.json"), "w"), indent=1, sort_keys=True)
+    path = os.path.join(VERIF, "equiv", "last_run.json")
+    try:
+        merged = json.load(open(path))
+    except (OSError, ValueError):
+        merged = {}
+    for n, v in summary.items():
+        merged.setdefault(n, {"violations": {}, "inconclusive": [], "quiet": 0, "props": []})
+        old = merged[n]
+        done = set(old.get("props", []))
+        old["props"] = sorted(done | set(props))
+        if set(props) >= done:
+            old.update({k: v[k] for k in ("violations", "inconclusive", "quiet")})
+        else:
+            old["violations"].update(v["violations"])
+            old["inconclusive"] = sorted(set(old["inconclusive"]) | set(v["inconclusive"]))
+    json.dump(merged, open(path, "w"), indent=1, sort_keys=True)
     return 1 if alarms else 0
 
 
